@@ -2808,6 +2808,12 @@ void mmd_engine_update_metavalue_for_key(mmd_engine * e, const char * key, const
 		}
 	} else if (meta_end != 0) {
 		// We're appending metadata at the end
+		if (!char_is_line_ending(e->dstr->str[meta_end - 1])) {
+			// The block ends at end of input without a newline
+			d_string_insert(e->dstr, meta_end, "\n");
+			meta_end++;
+		}
+
 		d_string_insert(e->dstr, meta_end, temp->str);
 	} else {
 		// There is no metadata, so prepend before document
